@@ -616,3 +616,45 @@ Proof.
   exists (fmu (length hs) hs (f_pcs f)). intros tr' f' F R.
   pose proof (fine_bounded_run sg hs tr' f f' I (fun t Ht => proj2 (Hin t) Ht) F R). lia.
 Qed.
+
+(* ---------- every call can complete ---------- *)
+Lemma not_holding_quiescent f : (forall t, fholding (f_pcs f t) = false) -> fquiescent f.
+Proof. intros H t. specialize (H t). destruct (f_pcs f t); try discriminate; [now left|right; eauto]. Qed.
+
+Lemma fine_terminates_from sg L : forall n f,
+  InvF f -> InvP f -> (forall t, fholding (f_pcs f t) = true -> In t L) ->
+  (fmu (length L) L (f_pcs f) <= n)%nat ->
+  exists tr f', forallb (fun e => negb (fis_env e)) tr = true /\ frun sg f tr = Some f' /\ fquiescent f'.
+Proof.
+  induction n as [|n IH]; intros f I P HL Hm.
+  - (* measure 0: nobody is holding (a holding caller has positive weight) *)
+    exists [], f. repeat split; auto. apply not_holding_quiescent. intro t.
+    destruct (fholding (f_pcs f t)) eqn:E; auto. exfalso.
+    destruct (fine_progress sg f I P (ex_intro _ t E)) as (e & f1 & He & Hs).
+    destruct (fstep_decreases sg f e f1 L I Hs He HL) as [Hlt _]. lia.
+  - assert (Hd : (exists t, fholding (f_pcs f t) = true) \/ (forall t, fholding (f_pcs f t) = false)).
+    { assert (Hl : (exists t, In t L /\ fholding (f_pcs f t) = true) \/ (forall t, In t L -> fholding (f_pcs f t) = false)).
+      { clear. induction L as [|a l IHl]; [right; intros t []|].
+        destruct (fholding (f_pcs f a)) eqn:E; [left; exists a; split; auto; now left|].
+        destruct IHl as [(t & Hin & Ht)|Hn]; [left; exists t; split; auto; now right|].
+        right. intros t [<-|Hin]; auto. }
+      destruct Hl as [(t & _ & Ht)|Hn]; [left; eauto|]. right. intro t.
+      destruct (fholding (f_pcs f t)) eqn:E; auto. rewrite (Hn t (HL t E)) in E. discriminate. }
+    destruct Hd as [Hh|Hq]; [|exists [], f; repeat split; auto; now apply not_holding_quiescent].
+    destruct (fine_progress sg f I P Hh) as (e & f1 & He & Hs).
+    destruct (fstep_decreases sg f e f1 L I Hs He HL) as [Hlt HL1].
+    destruct (IH f1 (stepF sg f e f1 I Hs) (stepP sg f e f1 I P Hs) HL1) as (tr & f' & F & R & Q); [lia|].
+    exists (e :: tr), f'. simpl. rewrite He, Hs. auto.
+Qed.
+
+(* from every reachable state of the channel-level system the callers that are inside can all
+   return and release: some run without new calls ends in a quiescent state *)
+Lemma fine_terminates sg r0 st0 tr f :
+  frun sg (finit r0 st0) tr = Some f ->
+  exists tr' f', forallb (fun e => negb (fis_env e)) tr' = true /\ frun sg f tr' = Some f' /\ fquiescent f'.
+Proof.
+  intro H. destruct (fine_reachable_inv sg r0 st0 tr f H) as (I & P).
+  destruct (f_pl f I) as (hs & _ & Hin & _).
+  apply (fine_terminates_from sg hs (fmu (length hs) hs (f_pcs f)) f I P); auto.
+  intros t Ht. now apply Hin.
+Qed.
